@@ -203,6 +203,7 @@ def c12(case):
     import pytrs
     a = case["args"]
     ch = a["channel"]
+    o = None
     try:
         if a["mode"] == "build":
             kw = {}
@@ -216,6 +217,7 @@ def c12(case):
                 o = pytrs.TRS.from_twprgesec(a["twp"], a["rge"], a["sec"], **kw)
             elif ch == "TRS.set_twprgesec":
                 o = pytrs.TRS()
+                _ = hash(o), {o: 1}            # (the object has been hashed / used as a key before it is re-set)
                 o.set_twprgesec(a["twp"], a["rge"], a["sec"], **kw)
             elif ch == "Tract.from_twprgesec":
                 cfg = ",".join(x for x in (a.get("dns"), a.get("dew"), "ocr_scrub" if a.get("ocr") else None) if x) or None
@@ -240,10 +242,14 @@ def c12(case):
                 out, attrs = d["trs"], trs_attrs_from_dict(d)
             else:  # TRS.trs setter on an existing object
                 o = pytrs.TRS("154n97w14")
+                _ = hash(o), {o: 1}
                 o.trs = s
                 out, attrs = o.trs, trs_attrs_from_obj(o)
         x, y = pytrs.TRS(out), pytrs.TRS(str(out))
         eq = (x == y) and (hash(x) == hash(y)) and (x == pytrs.TRS(x)) and not (x != y)
+        if isinstance(o, pytrs.TRS):
+            # the object itself, whatever happened to it before: equal strings compare and hash equal
+            eq = eq and (o == x) and (hash(o) == hash(x)) and (o in {x}) and len({o, x}) == 1
         return {"exc": "none", "out": out, "rewrap": x.trs, "eq": bool(eq), "attrs": attrs}
     except Exception as e:  # noqa
         return _exc(e)
@@ -527,6 +533,12 @@ def plss(case):
         elif post == "tract_parse":
             for t in d.tracts:
                 t.parse()
+        elif post == "dry_run":
+            # trying other settings without storing anything (the documented use of commit=False) leaves the flags alone
+            d.parse(commit=False)
+            d.parse(parse_qq=True, commit=False)
+            for t in d.tracts:
+                t.parse(commit=False)
         return plss_project(d, a)
     except Exception as e:  # noqa
         o = dict(EMPTY_OBS)
